@@ -66,6 +66,8 @@ class FunGen:
         if self.polymorphic and r.random() < 0.7:
             self.data["L"] = {"params": ["A"], "ctors": [("LNil", []), ("LCons", [("hd", "A"), ("tl", "L[A]")])]}
             self.insts += ["L[i64]", "L[D0]"]
+            if r.random() < 0.5:
+                self.insts += ["L[L[i64]]"]        # a nested instance (type arguments that are applied types themselves)
         if self.polymorphic and r.random() < 0.4:
             self.data["P"] = {"params": ["A", "B"], "ctors": [("PTup", [("fst", "A"), ("snd", "B")])]}
             self.insts += ["P[i64, D0]"]
@@ -85,6 +87,8 @@ class FunGen:
         if self.polymorphic and r.random() < 0.5:
             self.codata["F"] = {"params": ["A", "B"], "dtors": [("ap", [("x", "A")], "B")]}
             self.insts += ["F[i64, i64]", "F[i64, D0]"]
+            if "L" in self.data and r.random() < 0.5:
+                self.insts += ["L[F[i64, i64]]"]
 
     @staticmethod
     def split_ty(ty):
